@@ -114,7 +114,9 @@ const LAYOUTS = {
 const DIR = '/p/c11'
 // base names of the rewritten file ('' = the body's own short name); legal names that are awkward for
 // text-based frame handling
-const FILE_NAMES = ['', 'with space', 'paren(1)', 'dollar$&amp', 'dollar$$twice', "dollar$'quote", 'dollar$`tick', 'ñ€ü', 'colon:3:4', 'at x (y', 'dots.min.v2', '-dash', 'file:', '%41']
+const FILE_NAMES = ['', 'with space', 'paren(1)', 'dollar$&amp', 'dollar$$twice', "dollar$'quote", 'dollar$`tick', 'ñ€ü', 'colon:3:4', 'at x (y', 'dots.min.v2', '-dash', 'file:', '%41',
+  // files named relatively in the call (REL: = not joined to the directory): the directory part is in the name
+  'REL:lib/util/strings', 'REL:bare', 'REL:../shared/up', 'REL:lib/lib/twice', 'REL:a/b/../c/dotdot']
 // how the pre-transpilation sources are named in the original map (chained files)
 const SRC_KINDS = {
   relative: (n) => ({ names: [n + '.ts', n + '_part2.ts'], paths: [path.join(DIR, n + '.ts'), path.join(DIR, n + '_part2.ts')] }),
@@ -130,9 +132,10 @@ function mkFile (name, body, layout, chained, srcKind) {
   const sites = {}
   lines.forEach((l, i) => { const re = /\/\*@(\w+)\*\//g; let m; while ((m = re.exec(l))) (sites[m[1]] = sites[m[1]] || []).push(i + 1) })
   let code = lines.join('\n') + '\n'
-  const file = path.join(DIR, name + '.js')
+  const file = name.startsWith('REL:') ? name.slice(4) + '.js' : path.join(DIR, name + '.js')
   const tsShift = 20
-  let orig = { path: file, shift: 0 }
+  // (the lookup joins directory and source: `a/b/../c/x.js` is reported as `a/c/x.js`, the same path)
+  let orig = { path: name.startsWith('REL:') ? path.normalize(file) : file, shift: 0 }
   if (chained) {
     // a synthetic "pre-transpilation" source: line L of this file is line L + 20 of <name>.ts
     // two original sources (a bundle): the first half of the lines comes from <name>.ts, the rest from <name>_part2.ts
@@ -302,7 +305,7 @@ async function build (tier) {
   const leaves = []
   let stats = { states: 1, transitions: 0 }
   { // (P) single files: body x layout x chained x comments
-    const r = enumerate([{ name: 'body', symbols: ['A', 'B'], free: true }, { name: 'layout', symbols: Object.keys(LAYOUTS), free: true }, { name: 'chained', symbols: [false, true], free: true }, { name: 'comments', symbols: [false, true], free: true }, { name: 'fname', symbols: FILE_NAMES, free: true }, { name: 'src', symbols: Object.keys(SRC_KINDS), free: true }], { valid: (cur, i) => !(i >= 5 && !cur.chained && cur.src !== 'relative') })
+    const r = enumerate([{ name: 'body', symbols: ['A', 'B'], free: true }, { name: 'layout', symbols: Object.keys(LAYOUTS), free: true }, { name: 'chained', symbols: [false, true], free: true }, { name: 'comments', symbols: [false, true], free: true }, { name: 'fname', symbols: FILE_NAMES, free: true }, { name: 'src', symbols: Object.keys(SRC_KINDS), free: true }], { valid: (cur, i) => !(i >= 5 && !cur.chained && cur.src !== 'relative') && !(i >= 4 && cur.chained && String(cur.fname).startsWith('REL:')) })
     stats = addStats(stats, r.stats)
     for (const l of r.leaves) leaves.push({ fam: 'file', key: ['file', l.pick.body, l.pick.layout, l.pick.chained, l.pick.comments, l.pick.fname, l.pick.src].join('¦'), pick: l.pick })
   }
